@@ -1,4 +1,6 @@
-(* Persist/PInv.v — the invariant of the persist-mode model for inputs of arbitrary durability:
+(* Persist/LInv.v — [the development of stage 4, kept for C26_results_low: EVERY program and
+   choice of persisted functions, all durabilities LOW (flat mode fm = true); Persist/PInv*.v is
+   the development for all durabilities] — the invariant of the persist-mode model for inputs of arbitrary durability:
    the port of Core/DInv.v (definitions, basic facts, the frame rule for storing a memo).
 
    Differences from Core/DInv.v:
@@ -7,11 +9,8 @@
      observer clause by every memo in its closure.  Every memo is one; so is every dependency
      that a snapshot flattened away ([good]): the edges of a restored memo are the leaves of
      its flattened dependencies, and the memo is covered by them ([mo_in], [mo_q]);
-   - a memo of a function that is never serialised records its direct reads ([mo_direct]); a
-     memo's dependencies are at least as recent as the memo, or constant in between ([mo_sync],
-     [cconst]: the memo was validated by the durability short-cut);
-   - a memo that is verified now was there, or was marked verified, or was computed in this
-     revision and then its durability is the minimum over its reads ([ext_new], [fresh_lb]);
+   - [fm] (flat mode): flattened memos are allowed and all durabilities are LOW; otherwise every
+     memo records its direct reads ([mo_flat]);
    - the observer clause [mo_obs] speaks about the memos that EXIST (a restored database has
      lost the memos of non-persisted functions and the value-less ones);
    - changed_at stamps never decrease ([mo_stamp], [ext_mono], as in Core/DInv.v), across
@@ -24,14 +23,15 @@ From Salsa.Kern Require Import CoreK CoreKFacts.
 From Salsa.Core Require Import Model Spec SpecProofs Inv DurSem.
 From Salsa.Persist Require Import Model PSem PWp.
 
-Section PInv.
+Section LInv.
 Variable prog : qkey -> CM.body.            (* the translated program *)
 Variable rank : qkey -> nat.
 Hypothesis Hrank : calls_below prog rank.
 Variable NF : nat.
 Hypothesis Hbound : forall q, (rank q < NF)%nat.
-(* the functions whose memos are serialised: an edge to one of them is serialised directly *)
-Variable pf : qkey -> bool.
+(* flat mode: memos whose edges are the flattening of their reads (restored memos) are allowed;
+   all durabilities are LOW.  Otherwise every memo records its direct reads. *)
+Variable fm : bool.
 Notation E := (E prog NF).
 Notation tr := (tr prog NF).
 Notation envat := (envat prog NF).
@@ -87,56 +87,6 @@ Proof.
   - eapply reach_step; [exact Hc | apply IH; exact He].
 Qed.
 
-(* x and everything below it evaluate alike throughout the window [a, b] *)
-Definition cconst (H : hist) (a b : rev) (x : qkey) : Prop :=
-  forall y, clos H a x y -> forall w, a <= w -> w <= b ->
-    tr H w y = tr H a y /\ E H w y = E H a y.
-
-Lemma cconst_clos H a b x w : cconst H a b x -> a <= w -> w <= b ->
-  forall y, clos H w x y <-> clos H a x y.
-Proof.
-  intros Hc Ha Hb y. split; intros Hy.
-  - assert (G : forall f, clos H w f y -> clos H a x f -> clos H a x y).
-    { clear Hy. intros f Hfy. induction Hfy as [f | f d0 d Hin Hd0 IH]; intros Hf; [exact Hf|].
-      apply IH. eapply clos_right; [exact Hf|].
-      destruct (Hc f Hf w Ha Hb) as [Htr _]. rewrite <- Htr. exact Hin. }
-    apply (G x Hy). apply clos_refl.
-  - assert (G : forall f, clos H a f y -> clos H a x f -> clos H w f y).
-    { clear Hy. intros f Hfy. induction Hfy as [f | f d0 d Hin Hd0 IH]; intros Hf; [apply clos_refl|].
-      eapply clos_step.
-      - destruct (Hc f Hf w Ha Hb) as [Htr _]. rewrite Htr. exact Hin.
-      - apply IH. eapply clos_right; eassumption. }
-    apply (G x Hy). apply clos_refl.
-Qed.
-
-Lemma cconst_sub H a b x y : cconst H a b x -> clos H a x y -> cconst H a b y.
-Proof. intros Hc Hy z Hz. apply Hc. eapply clos_trans; eassumption. Qed.
-
-Lemma cconst_win H a b c x : cconst H a c x -> a <= b -> b <= c -> cconst H b c x.
-Proof.
-  intros Hc Hab Hbc y Hy w Hw1 Hw2.
-  apply (cconst_clos H a c x b Hc Hab Hbc) in Hy.
-  destruct (Hc y Hy w ltac:(lia) Hw2) as [A1 A2]. destruct (Hc y Hy b Hab Hbc) as [B1 B2].
-  split; congruence.
-Qed.
-
-Lemma cconst_trans H a b c x : cconst H a b x -> cconst H b c x -> a <= b -> b <= c -> cconst H a c x.
-Proof.
-  intros H1 H2 Hab Hbc y Hy w Hw1 Hw2.
-  destruct (N.le_gt_cases w b) as [Hle | Hgt]; [apply (H1 y Hy w Hw1 Hle)|].
-  pose proof (proj2 (cconst_clos H a b x b H1 Hab (N.le_refl _) y) Hy) as Hyb.
-  destruct (H2 y Hyb w ltac:(lia) Hw2) as [A1 A2]. destruct (H1 y Hy b Hab (N.le_refl _)) as [B1 B2].
-  split; congruence.
-Qed.
-
-Lemma cconst_stable H D k a b x : 1 <= k -> wstable H D k a b -> durge H D a k x -> cconst H a b x.
-Proof.
-  intros Hk Hw Hd y Hy w Hw1 Hw2.
-  pose proof (durge_clos _ _ _ _ _ _ _ _ Hd Hy) as Hdy.
-  destruct (durge_stable prog rank Hrank NF Hbound H D k a b y w Hk Hw Hdy Hw1 Hw2) as (A & B & _).
-  split; assumption.
-Qed.
-
 (* A (virtual) observer: query g as evaluated at revision w, with durability k.  Every memo is
    one (at its verified_at, with its recorded durability); so is every dependency that was
    flattened away, at the revision its memo was verified at when it was flattened. *)
@@ -150,24 +100,16 @@ Record obs_ok (H : hist) (D : dhist) (s : db) (g : qkey) (w : rev) (k : dur) : P
 
 (* The dependency d of a memo verified at v with edges L was flattened away: its reads at some
    revision rho >= v are covered by L — inputs are in L, function reads are in L or were flattened
-   away in turn, at revisions >= rho — and it is still an observer at rho.  A function read that
-   is in L and is not serialised itself has a memo verified at rho or later, or is constant from
-   its memo's revision to rho. *)
-Inductive good (H : hist) (D : dhist) (s : db) (L : list edge) : rev -> qkey -> Prop :=
-| good_exp v d rho k :
+   away in turn — and it is still an observer at rho.  (In flat mode a dependency with a recorded
+   durability >= 1 reads no input at all: nothing is required of L.) *)
+Inductive good (H : hist) (D : dhist) (s : db) (L : list edge) (v : rev) : qkey -> Prop :=
+| good_never d a k : fm = true -> 1 <= k -> a <= cur s -> durge H D a k d -> good H D s L v d
+| good_exp d rho k :
     obs_ok H D s d rho k -> v <= rho ->
     (forall x, In x (tr H rho d) -> ~ untr x) ->
     (forall i, In (RIn i) (tr H rho d) -> In (EIn i) L) ->
-    (forall e me, In (RQ e) (tr H rho d) -> In (EQ e) L -> pf e = false -> d_memo s e = Some me ->
-       rho <= m_verified me \/ cconst H (m_verified me) rho e) ->
-    (forall d', In (RQ d') (tr H rho d) -> ~ In (EQ d') L -> good H D s L rho d') ->
+    (forall d', In (RQ d') (tr H rho d) -> ~ In (EQ d') L -> good H D s L v d') ->
     good H D s L v d.
-
-Lemma good_weaken H D s L v v' d : good H D s L v' d -> v <= v' -> good H D s L v d.
-Proof.
-  intros Hg Hv. destruct Hg as [v' d rho k Ho Hvr Hu Hi Hl Hq].
-  apply (good_exp H D s L v d rho k); auto. lia.
-Qed.
 
 Record dmemo_ok (H : hist) (D : dhist) (F : ghost) (s : db) (q : qkey) (m : memo) : Prop := {
   mo_order : 1 <= m_verified m /\ m_changed m <= m_verified m /\ m_verified m <= cur s;
@@ -178,24 +120,22 @@ Record dmemo_ok (H : hist) (D : dhist) (F : ghost) (s : db) (q : qkey) (m : memo
          good H D s (m_edges m) (m_verified m) d;
   mo_reads_cell : forall x, In x (tr H (m_verified m) q) -> untr x -> m_untracked m = true;
   mo_edges_reach : forall d, In (EQ d) (m_edges m) -> reach q d;
-  (* a memo that is never serialised records its direct reads *)
-  mo_direct : pf q = false -> forall d, In (RQ d) (tr H (m_verified m) q) -> In (EQ d) (m_edges m);
+  mo_flat : fm = true \/ forall d, In (RQ d) (tr H (m_verified m) q) -> In (EQ d) (m_edges m);
   mo_durge : durge H D (m_verified m) (m_dur m) q;
   mo_dur3 : m_dur m <= 3;
   mo_stamp : prov H s F q (m_verified m) (m_changed m);
   mo_obs : forall d md, clos H (m_verified m) q d -> d_memo s d = Some md ->
            obs_pre H D s (m_verified m) d md ->
            E H (m_verified m) d = E H (m_verified md) d /\ m_dur m <= m_dur md;
-  (* a memo was verified by a walk or an execution, and its dependencies that have memos were
-     verified then or later, or by the durability short-cut, and then a dependency whose memo is
-     older is constant in between *)
-  mo_sync : forall d md, In (EQ d) (m_edges m) -> clos H (m_verified m) q d -> d_memo s d = Some md ->
-            m_verified m <= m_verified md \/ cconst H (m_verified md) (m_verified m) d
+  (* a memo of durability LOW was verified by a walk or an execution: its dependencies that
+     have memos were verified then or later *)
+  mo_sync : m_dur m = 0 -> forall d md, In (EQ d) (m_edges m) -> d_memo s d = Some md ->
+            m_verified m <= m_verified md
 }.
 
 Lemma obs_of_memo H D F s q m : dmemo_ok H D F s q m -> obs_ok H D s q (m_verified m) (m_dur m).
 Proof.
-  intros [a b c d e f f' h i st j k]. constructor; auto. lia.
+  intros [a b c d e f g h i st j k]. constructor; auto. lia.
 Qed.
 
 Record DInv (H : hist) (D : dhist) (F : ghost) (s : db) : Prop := {
@@ -213,7 +153,10 @@ Record DInv (H : hist) (D : dhist) (F : ghost) (s : db) : Prop := {
   (* a dropped memo is still an observer at the revision it was verified at, and its stamp has
      a provenance *)
   inv_ghost : forall d rho c, d_memo s d = None -> F d = Some (rho, c) ->
-              c <= rho /\ obs_ok H D s d rho 0 /\ prov H s F d rho c
+              c <= rho /\ obs_ok H D s d rho 0 /\ prov H s F d rho c;
+  (* flat mode: no input has, or ever had, a durability above LOW *)
+  inv_lowD : fm = true -> forall r i, D r i = 0;
+  inv_lowrev : fm = true -> forall k, 1 <= k -> lcs s k <= 1
 }.
 
 (* ---------------------------------------------------------------- stability from the write rule *)
@@ -246,19 +189,6 @@ Proof.
 Qed.
 
 (* ---------------------------------------------------------------- extension within a revision *)
-(* the recorded durability k of a memo of q that was computed in the current revision is exactly
-   the minimum over what the run read: the inputs' durabilities and the recorded durabilities of
-   the callees' memos, which are verified now and have values (so they do not change any more in
-   this revision) *)
-Definition fresh_lb (H : hist) (D : dhist) (s : db) (q : qkey) (k : dur) : Prop :=
-  (forall d, In (RQ d) (tr H (cur s) q) ->
-     exists md, d_memo s d = Some md /\ m_verified md = cur s /\ m_val md <> None) /\
-  forall k0, k0 <= 3 ->
-    (forall i, In (RIn i) (tr H (cur s) q) -> k0 <= D (cur s) i) ->
-    (forall d md, In (RQ d) (tr H (cur s) q) -> d_memo s d = Some md -> k0 <= m_dur md) ->
-    (forall x, In x (tr H (cur s) q) -> untr x -> k0 = 0) ->
-    k0 <= k.
-
 Record dext (H : hist) (D : dhist) (F : ghost) (s s' : db) : Prop := {
   ext_revs : d_revs s' = d_revs s;
   ext_in : d_in s' = d_in s;
@@ -274,12 +204,7 @@ Record dext (H : hist) (D : dhist) (F : ghost) (s s' : db) : Prop := {
   (* observers stay observers *)
   ext_obs : forall g w k, obs_ok H D s g w k -> obs_ok H D s' g w k;
   (* stamps never decrease *)
-  ext_mono : forall d c, phi s F d = Some c -> exists c', phi s' F d = Some c' /\ c <= c';
-  (* a memo that is verified now was there, or is a memo that was there marked verified, or was
-     computed in this revision *)
-  ext_new : forall q m', d_memo s' q = Some m' -> m_verified m' = cur s ->
-            (exists m0, d_memo s q = Some m0 /\ m_dur m' = m_dur m0 /\ m_verified m0 <= cur s) \/
-            fresh_lb H D s' q (m_dur m')
+  ext_mono : forall d c, phi s F d = Some c -> exists c', phi s' F d = Some c' /\ c <= c'
 }.
 
 Lemma dext_refl H D F s : dext H D F s s.
@@ -287,30 +212,15 @@ Proof.
   constructor; auto.
   - intros q m Hm Hv. exists m. split; [exact Hm|]. split; [exact Hv | lia].
   - intros d c Hc. exists c. split; [exact Hc | lia].
-  - intros q m' Hm' Hv. left. exists m'. split; [exact Hm'|]. split; [reflexivity | lia].
 Qed.
 
 Lemma dext_cur H D F s s' : dext H D F s s' -> cur s' = cur s.
-Proof. intros [Hr _ _ _ _ _ _ _ _ _ _]. unfold cur. rewrite Hr. reflexivity. Qed.
-
-Lemma fresh_lb_ext H D F s s' q k : dext H D F s s' -> fresh_lb H D s q k -> fresh_lb H D s' q k.
-Proof.
-  intros He [A B]. pose proof (dext_cur _ _ _ _ _ He) as Hc. unfold fresh_lb. rewrite Hc.
-  assert (A' : forall d, In (RQ d) (tr H (cur s) q) ->
-            exists md, d_memo s' d = Some md /\ m_verified md = cur s /\ m_val md <> None /\ d_memo s d = Some md).
-  { intros d Hd. destruct (A d Hd) as (md & Hmd & Hv & Hx). exists md.
-    split; [apply (ext_valid _ _ _ _ _ He d md Hmd Hv Hx)|]. split; [exact Hv|]. split; [exact Hx | exact Hmd]. }
-  split.
-  - intros d Hd. destruct (A' d Hd) as (md & X1 & X2 & X3 & _). exists md. split; [exact X1|]. split; assumption.
-  - intros k0 Hk0 Hi Hq Hu. apply (B k0 Hk0 Hi); [|exact Hu].
-    intros d md Hd Hmd. destruct (A' d Hd) as (md' & X1 & _ & _ & X4). rewrite Hmd in X4. injection X4 as <-.
-    apply (Hq d md Hd X1).
-Qed.
+Proof. intros [Hr _ _ _ _ _ _ _ _ _]. unfold cur. rewrite Hr. reflexivity. Qed.
 
 Lemma dext_trans H D F s1 s2 s3 : dext H D F s1 s2 -> dext H D F s2 s3 -> dext H D F s1 s3.
 Proof.
   intros H12 H23. pose proof (dext_cur _ _ _ _ _ H12) as Hc.
-  pose proof H23 as H23'. destruct H12 as [a1 b1 c1 d1 g1 e1 f1 o1 p1 q1 n1], H23 as [a2 b2 c2 d2 g2 e2 f2 o2 p2 q2 n2].
+  destruct H12 as [a1 b1 c1 d1 g1 e1 f1 o1 p1 q1], H23 as [a2 b2 c2 d2 g2 e2 f2 o2 p2 q2].
   constructor; try congruence; auto.
   - intros q m Hm Hv Hx. apply e2; [apply e1; assumption | rewrite Hc; exact Hv | exact Hx].
   - intros q m Hm Hv. destruct (f1 q m Hm Hv) as (m' & Hm' & Hv' & Hd').
@@ -319,13 +229,6 @@ Proof.
   - intros q m' Hm' Hv. apply o1; [|exact Hv]. apply o2; [exact Hm' | rewrite Hc; exact Hv].
   - intros d c Hd. destruct (q1 d c Hd) as (c' & Hc' & Hle). destruct (q2 d c' Hc') as (c'' & Hc'' & Hle').
     exists c''. split; [exact Hc'' | lia].
-  - intros q m'' Hm'' Hv''. destruct (n2 q m'' Hm'') as [(m0 & Hm0 & Hd0 & Hle0) | Hlb]; [rewrite Hc; exact Hv'' | | right; exact Hlb].
-    destruct (N.eq_dec (m_verified m0) (cur s1)) as [Hv0 | Hv0].
-    + destruct (n1 q m0 Hm0 Hv0) as [(m00 & Hm00 & Hd00 & Hle00) | Hlb].
-      * left. exists m00. split; [exact Hm00|]. split; [congruence | exact Hle00].
-      * right. rewrite Hd0. apply (fresh_lb_ext H D F s2 s3 q _ H23' Hlb).
-    + left. exists m0. split; [|split; [exact Hd0 | lia]].
-      apply (o1 q m0 Hm0). lia.
 Qed.
 
 (* a computation for a query of rank < k leaves memos of rank >= k alone *)
@@ -377,15 +280,11 @@ Qed.
 Lemma good_mono H D s s' L v d :
   cur s <= cur s' ->
   (forall g w k, obs_ok H D s g w k -> obs_ok H D s' g w k) ->
-  (* a memo of s' was there, or is verified at the current revision of s or later *)
-  (forall e me', d_memo s' e = Some me' -> d_memo s e = Some me' \/ cur s <= m_verified me') ->
   good H D s L v d -> good H D s' L v d.
 Proof.
-  intros Hc Hm Hmm Hg. induction Hg as [v d rho k Ho Hv Hu Hi Hl Hq IH].
-  apply (good_exp H D s' L v d rho k); auto.
-  intros e me' He HeL Hpe Hme'. destruct (Hmm e me' Hme') as [Hsame | Hnew].
-  - apply (Hl e me' He HeL Hpe Hsame).
-  - left. pose proof (ob_order _ _ _ _ _ _ Ho). lia.
+  intros Hc Hm Hg. induction Hg as [d a k Hf Hk Ha Hd | d rho k Ho Hv Hu Hi Hq IH].
+  - apply (good_never H D s' L v d a k Hf Hk); [lia | exact Hd].
+  - eapply good_exp; eauto.
 Qed.
 
 Lemma phi_same s s' F d : d_memo s' = d_memo s -> phi s' F d = phi s F d.
@@ -411,13 +310,13 @@ Lemma dmemo_ok_same H D F s s' q m :
 Proof.
   intros Hr Hi Hmm Hm.
   assert (Hcur : cur s' = cur s) by (unfold cur; rewrite Hr; reflexivity).
-  destruct Hm as [a b c d e f f' h i st j k].
+  destruct Hm as [a b c d e f g h i st j k].
   constructor; rewrite ?Hcur; auto.
-  - intros Hu0 d0 Hd0 Hn. apply (good_mono H D s s'); [lia | intros; eapply obs_ok_same; eassumption | intros e0 me0 He0; left; rewrite <- Hmm; exact He0 | auto].
+  - intros Hu0 d0 Hd0 Hn. apply (good_mono H D s s'); [lia | intros; eapply obs_ok_same; eassumption | auto].
   - apply (prov_same H s s'); assumption.
   - intros d0 md Hd0 Hmd Hp. apply (j d0 md Hd0); [rewrite <- Hmm; exact Hmd|].
     apply (obs_pre_core_eq H D s' s); [congruence | exact Hp].
-  - intros d0 md Hd0 Hcl0 Hmd. apply (k d0 md Hd0 Hcl0). rewrite <- Hmm; exact Hmd.
+  - intros Hz d0 md Hd0 Hmd. apply (k Hz d0 md Hd0). rewrite <- Hmm; exact Hmd.
 Qed.
 
 Lemma dmemo_ok_core_eq H D F s s' q m : dcore_eq s s' -> dmemo_ok H D F s q m -> dmemo_ok H D F s' q m.
@@ -427,7 +326,7 @@ Lemma DInv_core_eq H D F s s' : dcore_eq s s' -> DInv H D F s -> DInv H D F s'.
 Proof.
   intros Hc HI. pose proof (dcore_eq_cur _ _ Hc) as Hcur.
   pose proof Hc as (Hr & Hi & Hce & Hm).
-  destruct HI as [a a' b b' c d e f g gh].
+  destruct HI as [a a' b b' c d e f g gh l1 l2].
   constructor; unfold lcs in *; rewrite ?Hcur, ?Hi, ?Hce, ?Hm, ?Hr; auto.
   - intros q m Hq. apply (dmemo_ok_core_eq H D F s); [exact Hc | apply g; exact Hq].
   - intros d0 rho c0 Hn HF. destruct (gh d0 rho c0 Hn HF) as (A & B & C0).
@@ -510,16 +409,14 @@ Lemma DInv_store H D F s q m :
      (m_val m0 <> None -> m0 = m) /\ m_dur m0 <= m_dur m) ->
   (* the stamp does not decrease *)
   (forall c0, phi s F q = Some c0 -> c0 <= m_changed m) ->
-  (* marked verified, or computed now *)
-  ((exists m0, d_memo s q = Some m0 /\ m_dur m = m_dur m0) \/ fresh_lb H D (store s q m) q (m_dur m)) ->
   DInv H D F (store s q m) /\ dext H D F s (store s q m).
 Proof.
-  intros HI Hv Hok Hobs Hsame Hmono Hnew.
+  intros HI Hv Hok Hobs Hsame Hmono.
   assert (Hall : forall g w k, obs_ok H D s g w k -> obs_ok H D (store s q m) g w k).
   { intros g w k Ho. apply obs_store; [exact Hv | exact Ho|]. intros Hcl Hp. apply (Hobs g w k Ho Hcl Hp). }
   assert (Hphi : forall d c0, phi s F d = Some c0 -> exists c', phi (store s q m) F d = Some c' /\ c0 <= c').
   { intros d c0. apply phi_store. exact Hmono. }
-  destruct HI as [a a' b b' c d e f g gh].
+  destruct HI as [a a' b b' c d e f g gh l1 l2].
   split.
   - constructor; rewrite ?cur_store; auto.
     + intros p mp Hp. unfold store in Hp; cbn in Hp. unfold upd in Hp.
@@ -528,15 +425,13 @@ Proof.
       * specialize (g p mp Hp). pose proof (obs_of_memo _ _ _ _ _ _ g) as Hop.
         destruct g as [g1 g2 g3 g4 g5 g6 g7 g8 g9 gst g10 g12].
         constructor; rewrite ?cur_store; auto.
-        -- intros Hu0 d0 Hd0 Hn. apply (good_mono H D s); [rewrite cur_store; lia | exact Hall | | auto].
-           intros e0 me0 He0. unfold store in He0; cbn in He0. unfold upd in He0.
-           destruct (key_eqb_spec q e0) as [<- | Hne1]; [right; injection He0 as <-; lia | left; exact He0].
+        -- intros Hu0 d0 Hd0 Hn. apply (good_mono H D s); [rewrite cur_store; lia | exact Hall | auto].
         -- apply (prov_mono H s (store s q m)); [reflexivity | exact Hphi | exact gst].
         -- apply (ob_obs _ _ _ _ _ _ (Hall _ _ _ Hop)).
-        -- intros d0 md Hd0 Hcl0 Hmd. unfold store in Hmd; cbn in Hmd. unfold upd in Hmd.
+        -- intros Hz d0 md Hd0 Hmd. unfold store in Hmd; cbn in Hmd. unfold upd in Hmd.
            destruct (key_eqb_spec q d0) as [<- | Hne0].
-           ++ injection Hmd as <-. left. rewrite Hv. lia.
-           ++ apply (g12 d0 md Hd0 Hcl0 Hmd).
+           ++ injection Hmd as <-. rewrite Hv. lia.
+           ++ apply (g12 Hz d0 md Hd0 Hmd).
     + intros d0 rho c0 Hn HF. unfold store in Hn; cbn in Hn. unfold upd in Hn.
       destruct (key_eqb_spec q d0) as [<- | Hne]; [discriminate|].
       destruct (gh d0 rho c0 Hn HF) as (A & B & C0).
@@ -554,12 +449,6 @@ Proof.
     + intros p mp Hp Hvp. unfold store in Hp; cbn in Hp. unfold upd in Hp.
       destruct (key_eqb_spec q p) as [<- | Hne]; [|exact Hp].
       injection Hp as <-. lia.
-    + intros p mp Hp Hvp. unfold store in Hp; cbn in Hp. unfold upd in Hp.
-      destruct (key_eqb_spec q p) as [<- | Hne].
-      * injection Hp as <-. destruct Hnew as [(m0 & Hm0 & Hd0) | Hlb]; [left | right; exact Hlb].
-        exists m0. split; [exact Hm0|]. split; [exact Hd0|].
-        pose proof (mo_order _ _ _ _ _ _ (g q m0 Hm0)). lia.
-      * left. exists mp. split; [exact Hp|]. split; [reflexivity | lia].
 Qed.
 
 Lemma dtouch_store s q m k : (rank q < k)%nat -> dtouch_below s (store s q m) k.
@@ -586,4 +475,4 @@ Proof.
     destruct (d_init s fam) eqn:Hs; [|reflexivity]. rewrite (Hi fam Hs) in Hf. discriminate.
 Qed.
 
-End PInv.
+End LInv.
